@@ -58,7 +58,7 @@ func startServer() {
 	go db.Start()
 	addr = fmt.Sprintf("127.0.0.1:%d", port)
 	for i := 0; i < 200; i++ {
-		c, err := net.DialTimeout("tcp", addr, 100*time.Millisecond)
+		c, err := net.DialTimeout("tcp", addr, ts(100*time.Millisecond))
 		if err == nil {
 			c.Close()
 			return
@@ -133,7 +133,7 @@ func (r *runner) get(id int) (net.Conn, error) {
 func readUntil(c net.Conn, tail []byte, d time.Duration) ([]byte, string) {
 	var got []byte
 	buf := make([]byte, 65536)
-	deadline := time.Now().Add(d)
+	deadline := time.Now().Add(ts(d))
 	for {
 		c.SetReadDeadline(deadline)
 		n, err := c.Read(buf)
